@@ -57,4 +57,20 @@ CLAIMS["C08"] = {
     "technique": "source-to-Lean translation of the 63 message layouts + Lean 4 proofs + differential correspondence",
 }
 
+CLAIMS["C14"] = {
+    "text": "Machine-checked proof (Lean 4) over executable models of Packetizer and of TokioTransport against a scripted I/O object: for "
+            "every list of length-prefixed frames and EVERY sequence of extend / fill / next_message operations the frames handed out are "
+            "exactly a prefix of the original frames, in order, none early or twice, and buffered + unfed bytes are exactly the remaining "
+            "frames (packetizer_prefix); once everything is fed, draining yields exactly the original frames (packetizer_chunking); the "
+            "slice offered for filling is never empty (spare_slice_nonempty — the shape of that code is read from the source); for every "
+            "script of write results written ++ buffered = frames sent (transport_send_conserves), a flush succeeds only with everything "
+            "written (flush_done), zero-length writes and end-of-stream are errors (write_zero_is_error, eof_is_error), and every "
+            "receive_poll is a packetizer run on the pending input, so received frames are the input stream's frames once and in order "
+            "(transport_recv). Tie: the real Packetizer and the real TokioTransport (over a scripted AsyncRead+AsyncWrite mock) vs. the "
+            "compiled model, plus implementation-only oracles.",
+    "note": "Trusted: Lean kernel (+propext, Classical.choice, Quot.sound), tools/extract.py, the harness. Partial on real I/O: waker "
+            "registration, real sockets and the tokio reactor are outside the model (the I/O object is a script of poll results).",
+    "design_ref": "DESIGN.md section 6 C14",
+}
+
 NOT_APPLICABLE = {}
